@@ -89,6 +89,8 @@ def run(report):
             rebound_all |= set(f.rebound)
             axioms_all |= set(f.axioms)
             klass_count[f.klass] += 1
+            if f.assoc:
+                hows[f.assoc] += 1
             for o in f.obs:
                 if o.verdict == PROVED and o.detail.startswith("domain="):
                     domains[o.detail] += 1
@@ -145,6 +147,7 @@ def run(report):
         "calculate_functions_found": found,
         "classification": dict(klass_count),
         "proved_by_domain": dict(domains),
+        "sigma_source": dict(hows),
         "not_proved_reasons": dict(reasons.most_common()),
         "pool_wall_s": round(pool_s, 1),
         "slowest_modules": [(round(s, 1), calc.short(m)) for s, m in sorted(slow, reverse=True)[:8]],
